@@ -538,7 +538,7 @@ def class_program(pid, rnd):
     base = N("classd", x="g", ext=[], ctor=[mkfn(bparams, bbody)] if r.random() < 0.8 else [], k=members())
     # derived class: constructor shapes
     sup = N("expr", k=[N("supercall", spread=0, k=[small([]) for _ in range(r.randint(0, 2))])])
-    shape = r.choice(["none", "first", "first", "missing", "late", "double", "arrow", "retobj", "retprim", "cond", "thisbefore"])
+    shape = r.choice(["none", "first", "first", "missing", "late", "double", "arrow", "retobj", "retprim", "cond", "thisbefore", "evalsuper", "arrowthis", "evalthis"])
     dparams = r.sample(PARAMS, r.randint(0, 1))
     use_this = logst(N("mget", x="a", k=[N("this")]))
     if shape == "none":
@@ -554,6 +554,16 @@ def class_program(pid, rnd):
     elif shape == "arrow":
         arrow = N("fn", x="", kind="arrow", p=[], d=[], pp=[], s=0, k=[N("return", k=[sup["k"][0]])])
         dctor = [mkfn(dparams, [N("expr", k=[N("call", k=[arrow])]), use_this])]
+    elif shape == "evalsuper":       # super() inside direct eval code of the constructor
+        dctor = [mkfn(dparams, [N("evalcode", k=[sup]), use_this])]
+    elif shape == "arrowthis":       # an arrow created before super() reads this afterwards (and before, in a try)
+        arrow = N("fn", x="", kind="arrow", p=[], d=[], pp=[], s=0, k=[N("return", k=[N("this")])])
+        dctor = [mkfn(dparams, [N("let", x="w", k=[arrow]),
+                                N("try", x="e", cp=N("none"), k=[N("block", k=[logst(N("call", k=[N("ref", x="w")]))]), N("block", k=[logst(N("ref", x="e"))])]),
+                                sup, logst(N("mget", x="a", k=[N("call", k=[N("ref", x="w")])]))])]
+    elif shape == "evalthis":        # this read by direct eval code before and after super()
+        dctor = [mkfn(dparams, [N("try", x="e", cp=N("none"), k=[N("block", k=[N("evalcode", k=[use_this])]), N("block", k=[logst(N("ref", x="e"))])]),
+                                sup, N("evalcode", k=[use_this])])]
     elif shape == "retobj":
         dctor = [mkfn(dparams, ([sup] if r.random() < 0.5 else []) + [N("return", k=[N("objlit", k=[N("prop", x="a", kind="data", k=[N("num", n=2)])])])])]
     elif shape == "retprim":
